@@ -6,24 +6,27 @@ import (
 	"runtime/debug"
 	"sort"
 	"strings"
+	"sync"
 
 	"golang.org/x/tools/go/ssa"
 )
 
 type Unit struct {
-	Fn       *ssa.Function
-	Own      *Contract // may be nil
-	FType    *Contract // uniform contract of a named func type the function is converted to
-	Name     string
-	Props    map[string]bool
-	Script   *Script
-	Unsupp   string
-	SpecFail string
-	Assumed  []string
-	Watch    []watch
-	Notes    []string
-	ExternSites int
-	Sym         *Clause // two-copy unit: the symmetric clause it checks
+	patientFails int // second attempts that ended undecided (after one, the rest of the unit is not retried: it is reported anyway)
+	patientMu    sync.Mutex
+	Fn           *ssa.Function
+	Own          *Contract // may be nil
+	FType        *Contract // uniform contract of a named func type the function is converted to
+	Name         string
+	Props        map[string]bool
+	Script       *Script
+	Unsupp       string
+	SpecFail     string
+	Assumed      []string
+	Watch        []watch
+	Notes        []string
+	ExternSites  int
+	Sym          *Clause // two-copy unit: the symmetric clause it checks
 }
 
 type watch struct {
